@@ -62,7 +62,7 @@ TEMPLATE_SRC = {
     "m044": ([dict(t="f", p="s", c=b"hello\n", m=0o044)], "hello\n"),
     "dir": ([dict(t="d", p="s", m=0o755)], None),
 }
-CONTENTS = ["hello\n", "", "no newline", "café ✓\n", "nul\x00inside\n"]
+CONTENTS = ["hello\n", "hello", "", "no newline", "café ✓\n", "nul\x00inside\n"]
 TEMPLATE_NAMES = [".yml", ".yaml.j2", ".json", ".html", ".htm.j2", ".xml", ".js", ".txt.j2"]
 TEMPLATE_NAMED_TEXT = b"name: {{ v }}\nmarkup: {{ '<a href=\"x\">&amp;</a>' }}\nquote: {{ \"it's\" }}\n"
 TEMPLATE_NAMED_RENDERED = "name: val\nmarkup: <a href=\"x\">&amp;</a>\nquote: it's\n"
